@@ -1,6 +1,6 @@
 (* Comments.v — TokenParser._remove_comments: the regex
-       ("(.*?)"|'(.*?)')|(/\*.*?\*/|//[^\r\n]*$)      (MULTILINE | DOTALL)
-   applied left to right; a comment is replaced by the newlines it contains, a quoted string is kept.
+       ("(.*?)"|'(.*?)')|(/\*.*?\*/|//[^\r\n]* )      (MULTILINE | DOTALL; written here with a blank before the last parenthesis)
+   applied left to right; a comment is replaced by the newlines it contains - by one blank when it contains none -, a quoted string is kept.
    Characters are Z code points. *)
 From VF Require Export Model.Base.
 Open Scope list_scope. Open Scope Z_scope.
@@ -25,6 +25,8 @@ Fixpoint line_rest (l : list Z) : list Z * list Z :=
   | [] => ([], [])
   end.
 Definition newlines_of (l : list Z) : list Z := filter (fun c => c =? cNL) l.
+(* what a comment with text `body` is replaced by: "\n" * count or " " *)
+Definition comment_repl (body : list Z) : list Z := match newlines_of body with [] => [32] | nl => nl end.
 
 Fixpoint strip_go (fuel : nat) (l : list Z) : list Z :=
   match fuel with
@@ -43,16 +45,12 @@ Fixpoint strip_go (fuel : nat) (l : list Z) : list Z :=
         | d :: r' =>
           if d =? cST then
             match until_close r' with
-            | Some (body, rest) => newlines_of body ++ strip_go f rest
+            | Some (body, rest) => comment_repl body ++ strip_go f rest
             | None => c :: strip_go f r
             end
           else if d =? cSL then
-            let (_, rest) := line_rest r' in
-            (* `$` (MULTILINE) matches at the end of the text or just before a newline — not before a carriage return *)
-            match rest with
-            | [] => []
-            | e :: _ => if e =? cNL then strip_go f rest else c :: strip_go f r
-            end
+            (* a line comment ends in front of the first carriage return or line feed (or at the end of the text) *)
+            let (_, rest) := line_rest r' in 32 :: strip_go f rest
           else c :: strip_go f r
         | [] => [c]
         end
